@@ -217,8 +217,9 @@ def run_list(ctx, method):
         dof, dofs = None, [x.shape[0] - 1 for x in xs]
     elif dofk == 'scalar':
         d = int(min(x.shape[0] for x in xs) - 1)
-        d = max(d, 1)
-        dof, dofs = d, [d] * k
+        d = max(d - int(rng.integers(0, 2)), 1)
+        # a scalar dof as a caller may hold it: a Python int or a numpy integer (n - np.linalg.matrix_rank(X))
+        dof, dofs = (np.int64(d) if rng.integers(2) else d), [d] * k
     else:
         dofs = [int(rng.integers(max(1, x.shape[0] - 3), x.shape[0] + 1)) for x in xs]
         dof = list(dofs)
@@ -273,7 +274,7 @@ def make_dataset(rng, balanced, n_cond=None, reps=None, p=None):
     lk = gen.pick(rng, gen.LABEL_KINDS)
     labs = gen.labels(rng, n_cond, lk)
     obs = [labs[i] for i in idx]
-    kind = gen.pick(rng, ['normal', 'smallint_f', 'int'])
+    kind = gen.pick(rng, ['normal', 'smallint_f', 'int', 'uint8', 'bool'])   # storage: float64, integers, narrow, boolean
     meas = gen.values(rng, (len(idx), p), kind)
     cm = rng.standard_normal((n_cond, p)) * 3
     meas = meas + (cm[idx] if kind == 'normal' else np.round(cm[idx]).astype(meas.dtype))
@@ -332,7 +333,7 @@ def run_dataset(ctx, method):
             # the dataset object lives on and is edited through its public attributes (values rescaled in place, two
             # trials relabelled): the next estimate describes the dataset as it is now
             if good:
-                how = gen.pick(rng, ['scale_values', 'swap_labels'])
+                how = gen.pick(rng, ['scale_values', 'swap_labels']) if np.asarray(c['meas']).dtype.kind != 'b' else 'swap_labels'
                 c2 = dict(c)
                 if how == 'scale_values':
                     ds.measurements *= 2
@@ -431,8 +432,8 @@ def run_dataset_list(ctx, method):
     if dofk == 'none':
         dof, dofs = None, nat
     elif dofk == 'scalar':
-        d = max(1, min(nat))
-        dof, dofs = d, [d] * k
+        d = max(1, min(nat) - int(rng.integers(0, 2)))
+        dof, dofs = (np.int64(d) if rng.integers(2) else d), [d] * k
     else:
         dofs = [max(1, v - int(rng.integers(0, 2))) for v in nat]
         dof = list(dofs)
